@@ -172,24 +172,14 @@ def classify(ct, ff: FuncFacts, summ, late):
     return eff, rej, taint
 
 
-def run(prog, rep):
-    ct = Container(prog)
-    cd = Codecs(prog)
-    cd.flag_errors(rep)
+def path_rules(ct, cd, rep, names=None, include_setters=True, prefix=""):
+    """validate-before-effect / no-tainted-serialiser-on-handle / scratch-buffer-fresh over the given mutators."""
     mod = M.MOD(ct)
-    rep.explanation = (
-        "validate-before-effect: on the CFG of every mutator (calls to other mutators expanded through may-effect / "
-        "may-reject summaries) there is no path from a statement that changes the file or the in-memory table to a "
-        "statement that can still refuse the request (explicit raise that escapes, any evaluation on a caller-supplied "
-        "object, serialisation of parameter-derived data); no-tainted-serialiser-on-handle: a serialiser that writes "
-        "before it may still refuse is never given the live handle with a request-derived receiver; early-rejections: "
-        "the refusals that are early today stay ahead of the first effect."
-    )
     summ = summaries(ct)
     late = late_reject_writers(cd)
     n_early = 0
     n_funcs = 0
-    targets = [ct.facts(n) for n in ("add_block", "remove_block", "replace_block")] + [ct.facts(f.name, "setter") for f in ct.setters()]
+    targets = [ct.facts(n) for n in (names or ("add_block", "remove_block", "replace_block"))] + ([ct.facts(f.name, "setter") for f in ct.setters()] if include_setters else [])
     for ff in targets:
         n_funcs += 1
         fq = f"Tdf.{ff.f.name}" + (".setter" if ff.f.kind == "setter" else "")
@@ -207,13 +197,13 @@ def run(prog, rep):
         for rid, (rev, why) in sorted(rej.items()):
             if rid in reach_from_effect and not (rid in eff and first_eff[rid] is eff[rid] and len([x for x in eff if rid in cfg.reachable(cfg.nodes[x], normal_only=False)]) == 0):
                 fe = first_eff[rid]
-                rep.fail("validate-before-effect", mod, fq, rev.stmt,
+                rep.fail(prefix + "validate-before-effect", mod, fq, rev.stmt,
                          f"{why} AFTER the file/table was already changed by `{norm(head(fe.stmt))}`: a refusal here leaves a half-applied mutation")
             else:
                 n_early += 1
-                rep.ok("early-rejections", f"{fq}: `{norm(head(rev.stmt))[:80]}` ({why}) precedes every effect", nontrivial=True)
+                rep.ok(prefix + "early-rejections", f"{fq}: `{norm(head(rev.stmt))[:80]}` ({why}) precedes every effect", nontrivial=True)
         if not any(rid in reach_from_effect for rid in rej):
-            rep.ok("validate-before-effect", f"{fq}: no path from an effect ({len(eff)} sites) to a refusal ({len(rej)} sites)", nontrivial=bool(eff))
+            rep.ok(prefix + "validate-before-effect", f"{fq}: no path from an effect ({len(eff)} sites) to a refusal ({len(rej)} sites)", nontrivial=bool(eff))
         # scratch buffers used for pre-serialisation must be created in this call
         for c in walk_no_nested(ff.f.node):
             if isinstance(c, ast.Call) and isinstance(c.func, ast.Attribute) and c.func.attr in ("_write", "bwrite") and c.args and isinstance(c.func.value, ast.Name) \
@@ -222,25 +212,42 @@ def run(prog, rep):
                 fresh_local = isinstance(b, ast.Name) and b.id in ff.buffers
                 inline_new = isinstance(b, ast.Call) and norm(b.func) in ("BytesIO", "io.BytesIO")
                 if fresh_local or inline_new:
-                    rep.ok("scratch-buffer-fresh", f"{fq}: `{norm(c)[:60]}` serialises into a buffer created in this call")
+                    rep.ok(prefix + "scratch-buffer-fresh", f"{fq}: `{norm(c)[:60]}` serialises into a buffer created in this call")
                 else:
-                    rep.fail("scratch-buffer-fresh", mod, fq, c, f"request-derived data is serialised into `{norm(b)}`, which outlives this call: after a refused request its partial bytes stay in the buffer and are written by the next request")
+                    rep.fail(prefix + "scratch-buffer-fresh", mod, fq, c, f"request-derived data is serialised into `{norm(b)}`, which outlives this call: after a refused request its partial bytes stay in the buffer and are written by the next request")
         # tainted serialiser straight on the handle
         for e in ff.ev("entry_write", "block_write"):
             recv = e.entry if e.kind == "entry_write" else e.obj
             if getattr(e, "buffered", False):
-                rep.ok("no-tainted-serialiser-on-handle", f"{fq}: `{norm(recv)}` was serialised into a scratch buffer; only the finished bytes reach the handle", nontrivial=True)
+                rep.ok(prefix + "no-tainted-serialiser-on-handle", f"{fq}: `{norm(recv)}` was serialised into a scratch buffer; only the finished bytes reach the handle", nontrivial=True)
                 continue
             if isinstance(recv, ast.Name) and recv.id in taint:
                 cls = "TdfEntry" if e.kind == "entry_write" else None
                 if cls is None or cls in late:
                     what = f"TdfEntry._write writes {'fields' } before the comment it may refuse" if cls else "a block _write emits its header before labels/formats it may refuse"
-                    rep.fail("no-tainted-serialiser-on-handle", mod, fq, e.stmt,
+                    rep.fail(prefix + "no-tainted-serialiser-on-handle", mod, fq, e.stmt,
                              f"request-derived `{recv.id}` is serialised straight to the file handle; {what}: a refusal leaves a partial write (serialise to a scratch buffer first)")
             else:
-                rep.ok("no-tainted-serialiser-on-handle", f"{fq}: `{norm(head(e.stmt))}` serialises data that already fits (read from the file)")
+                rep.ok(prefix + "no-tainted-serialiser-on-handle", f"{fq}: `{norm(head(e.stmt))}` serialises data that already fits (read from the file)")
+    return n_early, n_funcs
+
+
+def run(prog, rep):
+    ct = Container(prog)
+    cd = Codecs(prog)
+    cd.flag_errors(rep)
+    mod = M.MOD(ct)
+    rep.explanation = (
+        "validate-before-effect: on the CFG of every mutator (calls to other mutators expanded through may-effect / "
+        "may-reject summaries) there is no path from a statement that changes the file or the in-memory table to a "
+        "statement that can still refuse the request (explicit raise that escapes, any evaluation on a caller-supplied "
+        "object, serialisation of parameter-derived data); no-tainted-serialiser-on-handle: a serialiser that writes "
+        "before it may still refuse is never given the live handle with a request-derived receiver; early-rejections: "
+        "the refusals that are early today stay ahead of the first effect."
+    )
+    n_early, n_funcs = path_rules(ct, cd, rep)
     rep.floor("early-rejections", n_early, 5)
     rep.floor("validate-before-effect/mutators", n_funcs, 8)
-    rep.extra["late_reject_writers"] = sorted(late)
+    rep.extra["late_reject_writers"] = sorted(late_reject_writers(cd))
     rep.not_decided += ["asynchronous / OS failures (disk full, KeyboardInterrupt): not 'the request is invalid'"]
     rep.trusted += ["BTSString.write raises ValueError for over-long / unencodable text (C13)"]
